@@ -11,6 +11,7 @@
 #define VF_INPUTS(X) X(unsigned char, which, ) X(int, count, ) X(int, iv, [CNT + 1]) X(double, dv, [CNT + 1]) X(float, fv, [CNT + 1]) X(unsigned char, sv, [CNT + 1][TS + 1]) \
     X(unsigned char, fail_at, ) X(unsigned char, nullarg, )
 #include "vf.h"
+#include "vf_str.h"
 #include "vf_mem.h"
 #define malloc vf_malloc
 #define free vf_free
